@@ -422,3 +422,15 @@ Example C18_ex_occupancy_threshold :
   occupied_flag default_occupancy_threshold (rows 14%nat) 6 = true /\
   n_residuals (rows 14%nat) 6 = O.
 Proof. vm_compute. repeat split. Qed.
+(* the rule as the code evaluates it (binary64 division and comparison) and the rule over exact rationals give the same
+   flag at the default threshold for every count up to 400 residuals per hour of week (a year of data has 53); an
+   Example rather than a Theorem because its proof computes with primitive floats, which Print Assumptions lists.
+   For other thresholds the two can differ inside the rounding band: 14 of 20 is not above the double nearest 0.7 *)
+Example C18_ex_occupancy_float_rule_agrees : forall n p, (n <= 400)%nat -> (p <= n)%nat ->
+  flag_f default_occupancy_threshold_f p n = flag_q default_occupancy_threshold p n.
+Proof. exact occupancy_float_rule_agrees_l. Qed.
+Example C18_ex_default_threshold_same_number : Q2F default_occupancy_threshold = default_occupancy_threshold_f.
+Proof. exact default_threshold_same_l. Qed.
+Example C18_ex_occupancy_rounding_band :
+  flag_f (0x1.6666666666666p-1)%float 14 20 = false /\ flag_q (Qmake 3152519739159347 4503599627370496) 14 20 = true.
+Proof. vm_compute. split; reflexivity. Qed.
